@@ -3,8 +3,14 @@ import numpy as _np
 import numba as _nb
 import time as _time
 import logging as _logging
+import os as _os
 
 logger = _logging.getLogger(__name__)
+
+# Verification hook (off unless SCARED_VERIF=1 and a chooser is installed): lets a harness
+# dictate and record which accumulation kernel runs on each batch.
+_VERIF = _os.environ.get('SCARED_VERIF') == '1'
+_verif_kernel_chooser = None
 
 
 class _PartitionnedDistinguisherBaseMixin(DistinguisherMixin):
@@ -114,11 +120,15 @@ class PartitionedDistinguisherMixin(_PartitionnedDistinguisherBaseMixin):
         Otherwise, the fastest method is selected empirically.
         """
         if len(self.partitions) > 9:
+            if _VERIF and _verif_kernel_chooser is not None:
+                _verif_kernel_chooser(self, 0, False)
             self._accumulate_core_1(traces, data, self.sum, self.sum_square, self.counters, self.precision)
         else:
             if not hasattr(self, '_timings'):
                 self._timings = [-2, -1]
             function_idx = _np.argmin(self._timings)
+            if _VERIF and _verif_kernel_chooser is not None:
+                function_idx = _verif_kernel_chooser(self, function_idx, True)
             function = [self._accumulate_core_1, self._accumulate_core_2][function_idx]
             t0 = _time.process_time()
             function(traces, data, self.sum, self.sum_square, self.counters, self.precision)
